@@ -98,7 +98,6 @@ package timeinterval
 //@   requires r != nil && unmarshal != nil
 //@   ensures [valid] result == nil ==> r.Begin <= r.End
 //@   ensures [accepts-every-valid-range] called("stringableRangeFromString") && ret("stringableRangeFromString") == nil && r.Begin <= r.End ==> result == nil
-//@   nosafe
 //@ func (*YearRange).UnmarshalYAML
 //@   props C15
 //@   requires r != nil && unmarshal != nil
